@@ -6,6 +6,7 @@ import CSD.Model.SourceText
 import CSD.Lemmas.PFCMeta
 import CSD.Lemmas.HashBlocks
 import CSD.Lemmas.HashRP
+import CSD.Lemmas.HashRPF
 
 namespace CSD.Props.C02
 open CSD CSD.PFC
@@ -70,6 +71,24 @@ theorem hashrpdac_locate_absent (tsize0 : Nat) (S : List Str) (hnd : S.Nodup) (h
   have gd := Hash.goodDict_build tsize0 S hnd hcap hacc
   rw [Hash.locateRP_eq gd hS g seqs st q hq, Hash.locate_absent gd q habs]
 
+/-- HASHRPF end to end: an absent query — including one that contains the terminator byte, or that is a
+prefix or an extension of a member — is answered 0; `extractStringAndCompareRP` returns 0 only for the
+stored string itself and never reads past that string's symbols or past the pattern buffer. -/
+theorem hashrpf_locate_absent (tsize0 : Nat) (S : List Str) (hnd : S.Nodup) (hcap : S.length ≤ tsize0)
+    (hacc : Hash.accepted (Hash.build tsize0 S).tsize = true)
+    (g : RePair.Grammar) (T : Nat) (cls : List Nat) (offs : Nat → Nat)
+    (st : Hash.StoresRPF (Hash.build tsize0 S) g T cls offs) (q : Str) (habs : q ∉ S) :
+    Hash.locateRPF (Hash.build tsize0 S) g T cls offs q = some 0 := by
+  have gd := Hash.goodDict_build tsize0 S hnd hcap hacc
+  rw [Hash.locateRPF_eq gd g T cls offs st q, Hash.locate_absent gd q habs]
+
+/-- The comparison itself: 0 exactly for the stored string. -/
+theorem rp_compare_decides_equality (g : RePair.Grammar) (hwf : g.wf = true) (T : Nat) (syms rest : List Nat)
+    (hv : ∀ x ∈ syms, x < g.terminals + g.rules.length) (s q : Str)
+    (hexp : g.expand syms = Hash.natBytes s ++ [T]) (hTs : T ∉ Hash.natBytes s) :
+    ∃ c, Hash.compareRP g T (syms ++ rest) (Hash.natBytes q) = some c ∧ (c = 0 ↔ s = q) :=
+  Hash.compareRP_spec g hwf T syms rest hv s q hexp hTs
+
 /-- Hash kinds: ID 0 and IDs above `n` extract nothing. -/
 theorem hash_extract_bad_id (tsize0 : Nat) (S : List Str) (i : Nat) (h : i = 0 ∨ i > S.length) :
     Hash.extract (Hash.build tsize0 S) i = none :=
@@ -96,6 +115,9 @@ theorem models_match_source_text :
     Generated.body_Blocks_search_before = SourceText.body_Blocks_search_before ∧
     Generated.body_Blocks_locate = SourceText.body_Blocks_locate ∧
     Generated.body_RePair_compareDAC = SourceText.body_RePair_compareDAC ∧
-    Generated.body_RePair_compareRule = SourceText.body_RePair_compareRule := ⟨rfl, rfl, rfl, rfl, rfl, rfl, rfl, rfl, rfl, rfl, rfl, rfl, rfl, rfl, rfl⟩
+    Generated.body_RePair_compareRule = SourceText.body_RePair_compareRule ∧
+    Generated.body_RePair_compareRP = SourceText.body_RePair_compareRP ∧
+    Generated.body_HASHRPF_locate = SourceText.body_HASHRPF_locate ∧
+    Generated.body_Hash_insert = SourceText.body_Hash_insert := ⟨rfl, rfl, rfl, rfl, rfl, rfl, rfl, rfl, rfl, rfl, rfl, rfl, rfl, rfl, rfl, rfl, rfl, rfl⟩
 
 end CSD.Props.C02
